@@ -18,7 +18,7 @@ use rayon::prelude::*;
 use serde_json::{json, Value as J};
 use std::collections::{BTreeSet, HashMap, HashSet};
 
-pub const VARIANTS: [&str; 9] = [
+pub const VARIANTS: [&str; 10] = [
     "plain",
     "unused-named-input",
     "dangling-node",
@@ -28,6 +28,7 @@ pub const VARIANTS: [&str; 9] = [
     "duplicated-step",
     "all-constant-leaves",
     "prf-mask",
+    "commuted-step",
 ];
 
 /// Builds the recipe with a decoration. Err = not applicable / rejected.
@@ -73,6 +74,19 @@ fn build_variant(r: &Recipe, variant: usize) -> Result<Context, String> {
             if variant == 3 && si == 0 {
                 nn = nn.nop()?;
                 nn.add_annotation(NodeAnnotation::Send(1, 2))?;
+            }
+            if variant == 9 && si + 1 == rr.steps.len() {
+                // the last step once more with its operands exchanged; both results are output
+                let sw = match s.swapped() {
+                    Some(sw) => sw,
+                    None => return Ok(None),
+                };
+                let other = match gen::apply(&g, &nodes, &sw) {
+                    Ok(n) => n,
+                    Err(_) => return Ok(None),
+                };
+                nodes.push(nn.clone());
+                nn = g.create_tuple(vec![nn.clone(), other])?;
             }
             if variant == 6 && si + 1 == rr.steps.len() {
                 let dup = gen::apply(&g, &nodes, s)?;
@@ -478,7 +492,7 @@ pub fn run(r: &Report) -> i32 {
     }
     r.finish(
         "exploration",
-        "part 1: every builder-accepted recipe of depth 1-2 (thorough: unary depth 3) over the E2 alphabet (tuples/vectors/zip and getters, A2B/B2A, duplicated operands, constants incl. constant sub-expressions) x 9 decoration variants (plain, unused named inputs, dangling nodes, annotated NOPs + Private, Random nodes, A2B/B2A chains, duplicated steps, all-constant leaves, PRF masks) x boundary input vectors; part 2: MPC-compiled contexts of the C01 space before their final optimisation. Oracle: node-by-node execution before/after with replayed random draws - mapped nodes equal, same output, same input interface (number, order, type, name), Send annotations kept on same-valued nodes and none invented, serde reload deep-equal with stored types == re-inferred types, reloaded context evaluates identically. distinct = programs the optimiser actually changed + compiled contexts",
+        "part 1: every builder-accepted recipe of depth 1-2 (thorough: unary depth 3) over the E2 alphabet (tuples/vectors/zip and getters, A2B/B2A, duplicated operands, constants incl. constant sub-expressions) x 10 decoration variants (plain, unused named inputs, dangling nodes, annotated NOPs + Private, Random nodes, A2B/B2A chains, duplicated steps, all-constant leaves, PRF masks, the last binary step repeated with its operands exchanged) x boundary input vectors; part 2: MPC-compiled contexts of the C01 space before their final optimisation. Oracle: node-by-node execution before/after with replayed random draws - mapped nodes equal, same output, same input interface (number, order, type, name), Send annotations kept on same-valued nodes and none invented, serde reload deep-equal with stored types == re-inferred types, reloaded context evaluates identically. distinct = programs the optimiser actually changed + compiled contexts",
         true,
         &["optimised graphs with CuckooToPermutation/DecomposeSwitchingMap (internal random draws that cannot be replayed) are skipped in part 2"],
         &["evaluations", "programs", "programs_changed_by_optimizer", "mapped_nodes_compared", "send_annotations_checked", "random_draws_replayed", "compiled_contexts"],
